@@ -426,35 +426,43 @@ func buildOps(nch int) []op {
 			if tg.name == "cur(ch1)" || tg.name == "cleaned-up(ch1)" {
 				goto updates
 			}
-			add(op{fmt.Sprintf("incoming-response(%s,%s)", tg.name, e.name), en, func(w *World) want {
-				num, ci := tg.pick(w)
-				acts := &doubles.Actions{}
-				mci := ci
-				if mci < 0 {
-					mci = 0
+			// the message travels in the default data-transfer extension or in the one that accompanies outgoing blocks
+			for _, extName := range []graphsync.ExtensionName{extension.ExtensionDataTransfer1_1, extension.ExtensionOutgoingBlock1_1} {
+				extName := extName
+				suffix := ""
+				if extName != extension.ExtensionDataTransfer1_1 {
+					suffix = ",in-outgoing-block-extension"
 				}
-				mc.Call(func() {
-					w.GS.IncomingResponseHook(e.p, &doubles.FakeResponseData{Num: num, Exts: extOf(e.m(mci))}, acts)
-				})
-				if ci < 0 {
-					return want{handler: []string{}}
-				}
-				// a response on a request we made (ch0) carries responses; on ch1 (we respond) this hook never fires legitimately
-				legit := e.ok(ci) && ci == 0
-				if ci == 1 {
-					// the message kinds are built for the responder role; as an incoming *response* hook they are all role-confused unless they are responses from B with id 2 — which do not match channel {B,A,2}
-					return want{handler: []string{}}
-				}
-				if legit {
-					return want{handler: []string{hname("OnResponseReceived", ci)}}
-				}
-				return want{handler: []string{}, custom: func(Delta) string {
-					if len(acts.Terminated) == 0 {
-						return "a role-confused / foreign extension on a response must terminate the request"
+				add(op{fmt.Sprintf("incoming-response(%s,%s%s)", tg.name, e.name, suffix), en, func(w *World) want {
+					num, ci := tg.pick(w)
+					acts := &doubles.Actions{}
+					mci := ci
+					if mci < 0 {
+						mci = 0
 					}
-					return ""
-				}}
-			}})
+					mc.Call(func() {
+						w.GS.IncomingResponseHook(e.p, &doubles.FakeResponseData{Num: num, Exts: extOf(e.m(mci), extName)}, acts)
+					})
+					if ci < 0 {
+						return want{handler: []string{}}
+					}
+					// a response on a request we made (ch0) carries responses; on ch1 (we respond) this hook never fires legitimately
+					legit := e.ok(ci) && ci == 0
+					if ci == 1 {
+						// the message kinds are built for the responder role; as an incoming *response* hook they are all role-confused unless they are responses from B with id 2 — which do not match channel {B,A,2}
+						return want{handler: []string{}}
+					}
+					if legit {
+						return want{handler: []string{hname("OnResponseReceived", ci)}}
+					}
+					return want{handler: []string{}, custom: func(Delta) string {
+						if len(acts.Terminated) == 0 {
+							return "a role-confused / foreign extension on a response must terminate the request"
+						}
+						return ""
+					}}
+				}})
+			}
 		updates:
 			if tg.name == "cur(ch0)" || tg.name == "old(ch0)" || tg.name == "cleaned-up(ch0)" {
 				continue
@@ -772,6 +780,11 @@ func c16(x *mc.Cell, nch, depth, maxStates int, focus ...string) {
 				x.Premise++
 				viol := func(sig, msg string) {
 					x.Violate("C16", fmt.Sprintf("%s;op=%s", sig, o.name), fmt.Sprintf("history=%v: %s\n  %s", rep.(map[string]any)["ops"], msg, d), rep)
+					// a message of the wrong kind for its sender's role, from a peer that is not the channel's other party, or
+					// naming another transfer, that has any effect: also C05
+					if containsStr(o.name, "role-confused-kind") || containsStr(o.name, ",from-C") || containsStr(o.name, "other-transfer-id") || containsStr(o.name, "(from-C,") {
+						x.Violate("C05", fmt.Sprintf("transport;%s;op=%s", sig, o.name), fmt.Sprintf("history=%v: %s\n  %s", rep.(map[string]any)["ops"], msg, d), rep)
+					}
 				}
 				if wt.custom != nil {
 					if s := wt.custom(d); s != "" {
@@ -856,7 +869,7 @@ func init() {
 		mc.Register(p, "transport-restart-cycles", "quick", func(x *mc.Cell) { c16(x, 2, 6, 0, focusRestartCycles...) })
 		mc.Register(p, "transport-restart-cycles", "thorough", func(x *mc.Cell) { c16(x, 2, 8, 80000, focusRestartCycles...) })
 	}
-	for _, p := range []string{"C20", "C09", "C10", "C07"} {
+	for _, p := range []string{"C20", "C09", "C10", "C07", "C05"} {
 		mc.Register(p, "transport-routing-2-channels", "quick", func(x *mc.Cell) { c16(x, 2, 3, 0) })
 		mc.Register(p, "transport-routing-3-channels", "thorough", func(x *mc.Cell) { c16(x, 3, 4, 60000) })
 	}
